@@ -18,6 +18,7 @@ EXPLANATION = (
 def check(ctx, run):
     run.rules_run = ['R18.1', 'R18.2', 'R18.3', 'R18.4', 'R18.5']
     numcodec.r18_1(ctx, run)
+    numcodec.bitlen_widths(ctx, run, 'R18.1')
     numcodec.r18_2(ctx, run)
     safety.panic_inventory(ctx, run, 'R18.3', ['number::Number::decode'], floor=4)
     numcodec.r18_4(ctx, run)
